@@ -555,11 +555,12 @@ impl Writer {
     /// Updates the active file ID and open a new data file with the new active ID.
     #[tracing::instrument(level = "debug", skip(self))]
     fn new_active_datafile(&mut self, fileid: u64) -> Result<(), Error> {
-        self.active_fileid = fileid;
+        // Only switch once the new file exists, a failure must leave the current one active
         self.writer = LogWriter::new(log::create(utils::datafile_name(
             self.ctx.conf.path.as_path(),
-            self.active_fileid,
+            fileid,
         ))?)?;
+        self.active_fileid = fileid;
         self.written_bytes = 0;
         Ok(())
     }
